@@ -309,6 +309,10 @@ impl Explorer {
       if got.len() < item.expect.len() || got[..item.expect.len()] != item.expect[..] {
         self.stats.divergent += 1;
         self.stats.exhaustive = false;
+        if std::env::var("VERIF_DEBUG_DIV").is_ok() {
+          let k = item.expect.iter().zip(got.iter()).position(|(a, b)| a != b).unwrap_or(got.len().min(item.expect.len()));
+          eprintln!("DIVERGENCE {} at {} expect {:?} got {:?} branch {:?} sample {:?}", h.name(), k, &item.expect[k.saturating_sub(2)..(k + 1).min(item.expect.len())], &got[k.saturating_sub(2)..(k + 1).min(got.len())], ctx.pc.get(k), out.verdict.as_ref().map(|v| v.sample.clone()));
+        }
         continue;
       }
       self.stats.paths += 1;
